@@ -366,6 +366,25 @@ func (x *X) sourceVar(s *State, name string, h *ssa.BasicBlock) (Val, bool) {
 	return nil, false
 }
 
+// rangeIter: the iterator state of the map-range loop whose header the clause under evaluation belongs to.
+func (ev *Ev) rangeIter() *IterState {
+	h := ev.ctx.loopHeader
+	if h == nil {
+		ev.errf("rangeKey/rangePos/visited outside a map-range loop invariant")
+	}
+	for _, in := range h.Instrs {
+		if n, ok := in.(*ssa.Next); ok {
+			if r, ok := n.Iter.(*ssa.Range); ok {
+				if it := ev.now.iters[r]; it != nil {
+					return it
+				}
+			}
+		}
+	}
+	ev.errf("the loop is not a map range")
+	return nil
+}
+
 // loopIndex is the number of completed iterations at loop header h.
 func (x *X) loopIndex(s *State, h *ssa.BasicBlock) Val {
 	fr := s.frames[0]
@@ -793,7 +812,16 @@ func (ev *Ev) call(n *ast.CallExpr) Val {
 	case "imp":
 		need(2)
 		lhs := tm(arg(0))
-		if lhs == "false" || ev.cur.knows(sNot(lhs)) {
+		lhsFalse := lhs == "false" || ev.cur.knows(sNot(lhs))
+		if !lhsFalse && strings.HasPrefix(lhs, "(and ") {
+			for _, cj := range splitTop(lhs[5 : len(lhs)-1]) {
+				if cj == "false" || ev.cur.knows(sNot(cj)) {
+					lhsFalse = true
+					break
+				}
+			}
+		}
+		if lhsFalse {
 			return boolV("true") // short-circuit: the consequent may not even be well defined (nil result on this path)
 		}
 		return boolV(sImp(lhs, tm(arg(1))))
@@ -887,6 +915,38 @@ func (ev *Ev) call(n *ast.CallExpr) Val {
 			}
 			return boolV(v.Nil)
 		}
+	case "rangeKey", "rangePos", "visited":
+		// map-range loops: rangeKey(j) is the j-th key of the (arbitrary, duplicate-free) enumeration, rangePos(k) the
+		// position of key k in it, visited(k) says that k is a key of the map whose iteration has been completed
+		need(1)
+		it := ev.rangeIter()
+		switch fname {
+		case "rangeKey":
+			return Sc{T: sSel(it.K, tm(arg(0))), Sort: it.KSort}
+		case "rangePos":
+			if it.Pos == "" {
+				ev.errf("rangePos over an empty map literal")
+			}
+			return intV(sApp(it.Pos, tm(arg(0))))
+		default:
+			if it.Pos == "" {
+				return boolV("false")
+			}
+			k := tm(arg(0))
+			return boolV(sAnd(sSel(it.Dom, k), sApp("<", sApp(it.Pos, k), it.Idx)))
+		}
+	case "local":
+		// local(name): the local variable of that name at this program point, even if a result carries the same name
+		need(1)
+		id, ok := n.Args[0].(*ast.Ident)
+		if !ok || ev.ctx.loopHeader == nil {
+			ev.errf("local(name) is available in exit clauses and loop invariants only")
+		}
+		v, ok := x.sourceVar(ev.now, id.Name, ev.ctx.loopHeader)
+		if !ok {
+			ev.errf("no local variable %q in scope", id.Name)
+		}
+		return v
 	case "indexIn":
 		// indexIn(list, Field, w): the least index at which list[k].Field == w, -1 if none (string fields)
 		need(3)
